@@ -1,17 +1,20 @@
 (* Links between the judge of C07Judge.v and the theorems of LayerProofs.v, and the refutation
    witnesses (evaluated with vm_compute) for the ill-behaved interceptors and seed hooks. *)
-From SC Require Import Base.Prelude Alias.Owned Alias.OwnedProofs Alias.LayerProofs Alias.C07Judge.
+From SC Require Import Base.Prelude Alias.Owned Alias.OwnedProofs Alias.LayerProofs Alias.TraitProofs Alias.C07Judge.
 
 Local Open Scope Z_scope.
 
 (* interceptor / hook codes proved well-behaved *)
 Definition icode_proved (c : icode) : bool :=
   match c with INone | ISetNew _ _ | IAddOld _ | ITotals _ _ _ _ _ => true | _ => false end.
+(* the repaired trait interceptors are registered before the write only *)
+Definition icode_proved_before (c : icode) : bool :=
+  match c with IUnion _ _ _ _ | IRemove _ _ _ | IMeta _ _ _ => true | _ => icode_proved c end.
 Definition scode_proved (c : scode) : bool :=
   match c with SId | SClear _ => true | SClearV0 _ => false end.
 Definition cop_proved (c : cop) : bool :=
   match c with
-  | CWrite _ arg _ _ _ ib ia => arg_wf arg && icode_proved ib && icode_proved ia
+  | CWrite _ arg _ _ _ ib ia => arg_wf arg && icode_proved_before ib && icode_proved ia
   | CPull _ _ h => scode_proved h
   | _ => true
   end.
@@ -25,6 +28,15 @@ Proof.
   - apply wb_totals.
 Qed.
 
+Lemma icode_proved_before_wb c : icode_proved_before c = true -> wb_before (icode_fun c).
+Proof.
+  destruct c; simpl; try discriminate; intros _;
+    try apply wb_none; try apply wb_set_new; try apply wb_add_old; try apply wb_totals.
+  - apply wb_union.
+  - apply wb_remove.
+  - apply wb_meta.
+Qed.
+
 Lemma scode_proved_wb c : scode_proved c = true -> wb_hook (scode_fun c) /\ pure_hook (scode_fun c).
 Proof.
   destruct c; simpl; try discriminate; intros _.
@@ -36,7 +48,7 @@ Lemma cop_proved_ok c : cop_proved c = true -> op_ok (cop_op c).
 Proof.
   destruct c; simpl; auto.
   - rewrite !andb_true_iff. intros [[A B] C]. split; auto.
-    split; [apply (icode_proved_wb ib B) | apply (icode_proved_wb ia C)].
+    split; [apply (icode_proved_before_wb ib B) | apply (icode_proved_wb ia C)].
   - intro H. apply (scode_proved_wb hook H).
 Qed.
 
@@ -168,4 +180,10 @@ Lemma w_bad_fails : model_ok true w_bad = false /\ forallb cop_guard w_bad = fal
 Proof. vm_compute. auto. Qed.
 Lemma w_good_ok : forallb cop_proved w_good = true /\ model_ok true w_good = true
   /\ zlen (snaps (run fuel (init_state true) (map cop_op w_good))) = 12.
+Proof. vm_compute. auto. Qed.
+
+(* the witness histories with the repaired interceptors / hook lie inside the proved fragment *)
+Lemma w_repaired_in_fragment :
+  forallb cop_proved (w_parent_remove false) = true /\ forallb cop_proved (w_parent_union false) = true /\
+  forallb cop_proved (w_metadata false) = true /\ forallb cop_proved (w_enterleave false) = true.
 Proof. vm_compute. auto. Qed.
